@@ -9,6 +9,7 @@ import (
 	"bytes"
 	"encoding/json"
 	"fmt"
+	"io"
 	"math"
 	"math/big"
 	"sort"
@@ -29,9 +30,9 @@ func pool() []vegeta.Result {
 		{Seq: 0, Code: 200, Timestamp: t0, Latency: 5 * time.Millisecond, BytesIn: 10, BytesOut: 3},
 		{Seq: 1, Code: 200, Timestamp: t0.Add(time.Second), Latency: 0, BytesIn: 0, BytesOut: 0},
 		{Seq: 2, Code: 503, Timestamp: t0.Add(2 * time.Second), Latency: 1, BytesIn: 1 << 40, BytesOut: 1 << 40, Error: "e1"},
-		{Seq: 3, Code: 0, Timestamp: t0.Add(-time.Second), Latency: math.MaxInt64 / 8, Error: "e2"}, // early request, ends last
-		{Seq: 4, Code: 399, Timestamp: t0, Latency: 7 * time.Millisecond, BytesIn: 7, BytesOut: 1},     // same timestamp as #0
-		{Seq: 5, Code: 400, Timestamp: t0.Add(3 * time.Second), Latency: 2 * time.Second, Error: "e1"}, // duplicate error text
+		{Seq: 3, Code: 0, Timestamp: t0.Add(-time.Second), Latency: math.MaxInt64 / 8, Error: "e2"},          // early request, ends last
+		{Seq: 4, Code: 399, Timestamp: t0, Latency: 7 * time.Millisecond, BytesIn: 7, BytesOut: 1},           // same timestamp as #0
+		{Seq: 5, Code: 400, Timestamp: t0.Add(3 * time.Second), Latency: 2 * time.Second, Error: "e1"},       // duplicate error text
 		{Seq: 6, Code: 199, Timestamp: t0.Add(2 * time.Second), Latency: 5 * time.Millisecond, Error: "e1 "}, // differs from "e1" by a trailing blank only (a status line with an empty reason phrase): a distinct text
 		// status codes that are not three digits wide (foreign or crafted result files, library users): 20 and 3000
 		// are no successes although they start with 2 / 3
@@ -395,8 +396,13 @@ func TestC10(t *testing.T) {
 func rerender(R *ev.Run, p []vegeta.Result) {
 	ev.Seqs(len(p), 1, 3, func(seq []int) {
 		m := &vegeta.Metrics{}
-		reps := map[string]vegeta.Reporter{"text": vegeta.NewTextReporter(m), "json": vegeta.NewJSONReporter(m)}
+		reps := map[string]vegeta.Reporter{"text": vegeta.NewTextReporter(m), "json": vegeta.NewJSONReporter(m), "hdrplot": vegeta.NewHDRHistogramPlotReporter(m)}
 		last := map[string]string{}
+		// the first tick of a periodic report can come before the first result: everything is rendered once on the empty metrics
+		m.Close()
+		for _, rep := range reps {
+			rep.Report(io.Discard)
+		}
 		for _, s := range seq {
 			r := p[s]
 			m.Add(&r)
@@ -415,7 +421,14 @@ func rerender(R *ev.Run, p []vegeta.Result) {
 		if len(seq) > 1 {
 			R.Distinct(fmt.Sprint("rerender", seq))
 		}
-		for name, fresh := range map[string]vegeta.Reporter{"text": vegeta.NewTextReporter(m), "json": vegeta.NewJSONReporter(m)} {
+		rs := make([]vegeta.Result, len(seq))
+		for i, x := range seq {
+			rs[i] = p[x]
+		}
+		if bad := compare(m, reference(rs)); len(bad) > 0 {
+			R.Violation("metrics:after-reports-on-empty-metrics:"+defectKey(bad), map[string]any{"history": "Close+render on the empty metrics; " + describe(p, seq, 1<<len(seq)-1), "discrepancies": bad})
+		}
+		for name, fresh := range map[string]vegeta.Reporter{"text": vegeta.NewTextReporter(m), "json": vegeta.NewJSONReporter(m), "hdrplot": vegeta.NewHDRHistogramPlotReporter(m)} {
 			var b bytes.Buffer
 			fresh.Report(&b)
 			if b.String() != last[name] {
@@ -437,10 +450,18 @@ func popcount(x int) int {
 func scale(R *ev.Run) {
 	const n = 100000
 	fam := map[string]func(i int) vegeta.Result{
-		"ramp":     func(i int) vegeta.Result { return vegeta.Result{Code: 200, Timestamp: t0.Add(time.Duration(i) * time.Millisecond), Latency: time.Duration(i+1) * time.Microsecond, BytesIn: uint64(i)} },
-		"reversed": func(i int) vegeta.Result { return vegeta.Result{Code: 200, Timestamp: t0.Add(time.Duration(n-i) * time.Millisecond), Latency: time.Duration(n-i) * time.Microsecond, BytesIn: 1} },
-		"constant": func(i int) vegeta.Result { return vegeta.Result{Code: 500, Timestamp: t0, Latency: time.Millisecond, Error: "x"} },
-		"zigzag":   func(i int) vegeta.Result { return vegeta.Result{Code: uint16(200 + 300*(i%2)), Timestamp: t0.Add(time.Duration((i*7919)%n) * time.Millisecond), Latency: time.Duration((i*104729)%1000) * time.Microsecond, Error: []string{"", "e"}[i%2]} },
+		"ramp": func(i int) vegeta.Result {
+			return vegeta.Result{Code: 200, Timestamp: t0.Add(time.Duration(i) * time.Millisecond), Latency: time.Duration(i+1) * time.Microsecond, BytesIn: uint64(i)}
+		},
+		"reversed": func(i int) vegeta.Result {
+			return vegeta.Result{Code: 200, Timestamp: t0.Add(time.Duration(n-i) * time.Millisecond), Latency: time.Duration(n-i) * time.Microsecond, BytesIn: 1}
+		},
+		"constant": func(i int) vegeta.Result {
+			return vegeta.Result{Code: 500, Timestamp: t0, Latency: time.Millisecond, Error: "x"}
+		},
+		"zigzag": func(i int) vegeta.Result {
+			return vegeta.Result{Code: uint16(200 + 300*(i%2)), Timestamp: t0.Add(time.Duration((i*7919)%n) * time.Millisecond), Latency: time.Duration((i*104729)%1000) * time.Microsecond, Error: []string{"", "e"}[i%2]}
+		},
 	}
 	for name, g := range fam {
 		rs := make([]vegeta.Result, n)
